@@ -362,7 +362,9 @@ Proof. vm_compute. repeat split. Qed.
    represents the model's next state).  No load or store leaves its block; the only signed operation that can overflow is
    lb->useq++, excluded by useq < INT_MAX -- and at INT_MAX the translated function IS the error EOverflow. *)
 From Coq Require Import Lia.
-From NV Require Import CLite CLiteProps GenCFuncs TrLbufBase TrLbuf.
+From NV Require CLite CLiteProps GenCFuncs TrLbufBase TrLbuf.
+Section C02_translated.
+Import CLite CLiteProps GenCFuncs TrLbufBase TrLbuf.
 
 Theorem C02_tr_lbuf_seq : forall m bl blk (lb : lbuf) d fuel, lbuf_rep m bl blk lb -> lbuf_ints lb ->
   callf cprog fuel (S d) F_lbuf_seq [VPtr bl 0] m = Ok (VInt (lbuf_seq lb), m).
@@ -438,3 +440,4 @@ Proof.
   split. { unfold lbuf_ints, i32. cbn. repeat split; try lia. repeat constructor; cbn; lia. }
   vm_compute. repeat split. eexists. reflexivity.
 Qed.
+End C02_translated.
